@@ -135,10 +135,10 @@ func genCase(rt *rapid.T) *Case {
 	leafName := "leaf"
 	qual := "app.leaf"
 	if leafMethod {
-		b.add("func (t *T) Leaf(a int) int {")
+		b.add("func (t *T) Leaf(a int, more ...int) int {")
 		leafName, qual = "Leaf", "app.T.Leaf"
 	} else {
-		b.add("func leaf(a int) int {")
+		b.add("func leaf(a int, more ...int) int {")
 	}
 	nfill := rx.Range(rt, "leaffill", 0, 2)
 	for i := 0; i < nfill; i++ {
@@ -169,9 +169,9 @@ func genCase(rt *rapid.T) *Case {
 		if isMethod {
 			name = fmt.Sprintf("M%d", d)
 			q = "app.T." + name
-			b.add("func (t *T) %s(a int) int {", name)
+			b.add("func (t *T) %s(a int, more ...int) int {", name)
 		} else {
-			b.add("func %s(a int) int {", name)
+			b.add("func %s(a int, more ...int) int {", name)
 		}
 		// recursion: this function first recurses a few times on itself, then goes on
 		rec := 0
@@ -217,7 +217,16 @@ func genCase(rt *rapid.T) *Case {
 			indent, closers = "\t\t", 1
 		}
 		var callLine, callLine2 int
-		switch rx.Uniform(rt, 7, "callshape") {
+		switch rx.Uniform(rt, 9, "callshape") {
+		case 7:
+			// the surplus arguments come from a slice that is spread
+			b.add("%ssp := []int{a, 1}", indent)
+			callLine = b.add("%sr := %s(a, sp...)", indent, strings.TrimSuffix(callee, "(a)"))
+			b.add("%s_ = r", indent)
+		case 8:
+			// the returned call starts on the line after return
+			b.add("%sreturn (", indent)
+			callLine = b.add("%s\t%s)", indent, callee)
 		case 0:
 			callLine = b.add("%sr := %s", indent, callee)
 			b.add("%s_ = r", indent)
